@@ -145,13 +145,20 @@ class LunrIndexWriter:
         # Removing the stemmer from the search pipeline, see https://github.com/yeraydiazdiaz/lunr.py/issues/112
         builder.search_pipeline.reset()
 
+        documents = self.get_corpus()
         index = lunr(
             ref='qname',
             fields=[{'field_name':name, 'boost':self._BOOSTS[name]} for name in self.fields],
-            documents=self.get_corpus(), 
+            # lunr can't build an index out of no document at all (it divides by their number): 
+            # when nothing is visible, index a placeholder and empty the index afterwards.
+            documents=documents or [({f:'' for f in self.fields}, {'boost': 1})], 
             builder=builder)   
         
-        serialized_index = json.dumps(index.serialize())
+        serialized = index.serialize()
+        if not documents:
+            serialized['fieldVectors'] = []
+            serialized['invertedIndex'] = []
+        serialized_index = json.dumps(serialized)
 
         with self.output_file.open('w', encoding='utf-8') as fobj:
             fobj.write(serialized_index)
